@@ -121,9 +121,17 @@ class ContainerModel(Model):
 
     def mk_value(self, fe, args, vt):
         """value of type vt built from emplace-style args"""
+        if len(args) == 1 and scalar(vt):
+            return '((%s)%s)' % (fe.em.ctype(vt), fe.expr(args[0]))
+        if not args and scalar(vt):
+            return '((%s)0)' % fe.em.ctype(vt)
+        if not args:
+            dv = fe.default_value(vt)
+            if dv is not None:
+                return dv
         if len(args) == 1:
             at = fe.ty(args[0]).strip_ref()
-            if repr(Ty('name', at.name, at.args)) == repr(Ty('name', vt.name, vt.args)) or scalar(vt):
+            if at.kind == 'name' and vt.kind == 'name' and repr(Ty('name', at.name, at.args)) == repr(Ty('name', vt.name, vt.args)):
                 return fe.expr(args[0])
         ct = 'void (' + ', '.join(a['type']['qualType'] + (' &' if a.get('valueCategory') == 'lvalue' and not scalar(fe.ty(a)) else '') for a in args) + ')'
         return fe.construct_by_args(vt, args)
